@@ -694,7 +694,10 @@ static Type *pointers(Token **rest, Token *tok, Type *ty) {
 static Type *declarator(Token **rest, Token *tok, Type *ty) {
   ty = pointers(&tok, tok, ty);
 
-  if (equal(tok, "(")) {
+  // "(" followed by ")" or a type keyword is the parameter list of an
+  // abstract function declarator ("int (void)"), not a nested declarator.
+  if (equal(tok, "(") && !equal(tok->next, ")") &&
+      !(tok->next->kind == TK_KEYWORD && is_typename(tok->next))) {
     Token *start = tok;
     Type dummy = {};
     declarator(&tok, start->next, &dummy);
@@ -721,7 +724,8 @@ static Type *declarator(Token **rest, Token *tok, Type *ty) {
 static Type *abstract_declarator(Token **rest, Token *tok, Type *ty) {
   ty = pointers(&tok, tok, ty);
 
-  if (equal(tok, "(")) {
+  // "(" followed by ")" or a type name begins a parameter list.
+  if (equal(tok, "(") && !equal(tok->next, ")") && !is_typename(tok->next)) {
     Token *start = tok;
     Type dummy = {};
     abstract_declarator(&tok, start->next, &dummy);
